@@ -1,5 +1,6 @@
 """Structured configuration generator (one PRNG state per case), YAML emitter and defect injectors."""
 import json
+import re
 
 
 class Raw:
@@ -92,7 +93,7 @@ class Gen:
         imp = self.import_ref()
         # a dotted selector after an import needs the quoted form (otherwise the last dot-separated word before the
         # final one is read as part of the package path)
-        qimp = self.import_ref(quoted_only=True)
+        qimp = self.import_ref(quoted_only=True) or '".".'
         forms = ["Value", "&Value", "%sValue" % imp, "%sGlobalVar.Field" % qimp, "&%sGlobalVar.Field" % qimp,
                  "MyStruct{}", "&MyStruct{}", "%sMyStruct{}" % imp, "&%sMyStruct{}" % imp]
         return r.choice(forms)
@@ -147,7 +148,21 @@ class Gen:
         if "value" in kind:
             sv["value"] = self.value_expr()
         if "type" in kind:
-            sv["type"] = r.choice(["", "*"]) + self.import_ref() + r.choice(TYPES)
+            if "value" in sv:
+                # the declared type must be the type of the value: same package, pointer iff the value is an address
+                v = sv["value"]
+                m = re.match(r'^(&?)((?:"[^"]*"|[^".{}&]+(?:\.[^".{}&/]+)*?(?:/[^".{}&]+)*)\.)?[A-Za-z]', v)
+                ptr = "*" if v.startswith("&") else ""
+                imp = ""
+                body = v.lstrip("&")
+                if body.startswith('"'):
+                    imp = body[:body.index('"', 1) + 1] + "."
+                elif "/" in body or (body.count(".") >= 1 and not body.startswith(("Value", "GlobalVar", "MyStruct"))):
+                    head = body.split("{")[0]
+                    imp = head[:head.rindex(".") + 1] if "." in head else ""
+                sv["type"] = ptr + imp + r.choice(TYPES)
+            else:
+                sv["type"] = r.choice(["", "*"]) + self.import_ref() + r.choice(TYPES)
         if r.random() < 0.4:
             sv["getter"] = "Get" + name.capitalize().replace(".", "").replace("-", "").replace("_", "")
             if r.random() < 0.5:
@@ -181,7 +196,7 @@ class Gen:
         if r.random() < 0.3:
             meta["container_type"] = r.choice(["Gontainer", "MyContainer", "c"])
         if r.random() < 0.3:
-            meta["container_constructor"] = r.choice(["NewGontainer", "Build", "newC"])
+            meta["container_constructor"] = r.choice(["NewGontainer", "BuildIt", "newC"])
         if r.random() < 0.3:
             meta["default_must_getter"] = r.choice([True, False])
         if r.random() < 0.6:
